@@ -212,6 +212,12 @@ func (a *asyncFifoRetryImpl) retry(ctx context.Context) (breakLoop bool) {
 			if errors.Is(err, storage.ErrUncertainResult) {
 				state = retryUnknownPut
 			}
+			if !errors.Is(err, storage.ErrCASFailed) {
+				// the rewrite may not have taken effect (storage error or uncertain result),
+				// keep the event at the head of queue and retry in next tick,
+				// otherwise the uncertain write would never be fixed and no event would be sent for it
+				return true
+			}
 		}
 	}
 
